@@ -2,7 +2,7 @@
 # usage: confirm_seed.sh <ID> <a|b>  -- independently confirms a seeded change delivered under /tmp/wt/out/<ID>/<x>/
 # (applies in a scratch worktree outside /repo and /verif, demo must FAIL with it and PASS without, pinned suite must stay 538/538)
 ID=$1; X=$2
-SRC=/tmp/wt/out/$ID/$X
+SRC=${SEED_SRC:-/tmp/wt/out}/$ID/$X
 WT=/tmp/wt/cf_${ID}_$X
 OUT=/tmp/wt/confirm; mkdir -p $OUT
 RES=$OUT/${ID}_$X.json
@@ -18,5 +18,5 @@ PATCH_RC=$(rundemo patched)
 git checkout -q -- . ; git clean -fdq
 cd /
 git -C /repo worktree remove --force $WT >/dev/null 2>&1
-echo "{\"id\":\"$ID\",\"x\":\"$X\",\"demo_clean_rc\":$CLEAN_RC,\"demo_patched_rc\":$PATCH_RC,\"suite_rc\":$SUITE_RC,\"head\":\"$(git -C /repo rev-parse --short HEAD)\"}" > $RES
+echo "{\"id\":\"$ID\",\"x\":\"$X\",\"demo_clean_rc\":$CLEAN_RC,\"demo_patched_rc\":$PATCH_RC,\"suite_rc\":$SUITE_RC,\"src\":\"$SRC\",\"head\":\"$(git -C /repo rev-parse --short HEAD)\"}" > $RES
 cat $RES
